@@ -106,5 +106,54 @@ func E1Tables() *an.Tables {
 		RootPre: map[string][]string{
 			"WaitCond": {"cond.L"},
 		},
+		Sections: []an.Section{
+			// Buffer / consumer (C01, C02, C03, C12)
+			{ID: "consumer.offset read-modify-write", From: "read:consumer.offset", To: "write:consumer.offset", Lock: "consumer.mutex", Why: "the uncommitted delta is advanced / reset in the hold in which it was read"},
+			{ID: "consumer.Get position->advance", Func: "(*consumer).Get", From: "call:invoke:bigbuff.producer.getAsync", To: "write:consumer.offset", Lock: "consumer.mutex", Why: "the position handed to getAsync stays valid until the delta is advanced"},
+			{ID: "consumer.Commit fold->reset", Func: "(*consumer).Commit", From: "call:invoke:bigbuff.producer.commit", To: "write:consumer.offset", Lock: "consumer.mutex", Why: "the delta is zeroed in the hold in which it was folded into the committed offset"},
+			{ID: "Put closed-check->append", Func: "(*Buffer).Put", From: "read:Buffer.ctx", To: "write:Buffer.buffer", Lock: "Buffer.mutex", Why: "a closed buffer accepts nothing"},
+			{ID: "Put append->broadcast", Func: "(*Buffer).Put", From: "write:Buffer.buffer", To: "broadcast:Buffer.cond", Lock: "Buffer.mutex", Why: "the whole batch becomes visible atomically"},
+			{ID: "NewConsumer closed-check->register", Func: "(*Buffer).NewConsumer", From: "read:Buffer.ctx", To: "write:Buffer.consumers[]", Lock: "Buffer.mutex", Why: "no consumer is registered on a closed buffer"},
+			{ID: "NewConsumer base->register", Func: "(*Buffer).NewConsumer", From: "read:Buffer.offset", To: "write:Buffer.consumers[]", Lock: "Buffer.mutex", Why: "the consumer starts at the base offset current at registration"},
+			{ID: "commit lookup->store", Func: "(*Buffer).commit", From: "read:Buffer.consumers[]", To: "write:Buffer.consumers[]", Lock: "Buffer.mutex", Why: "committed offset read and updated atomically"},
+			{ID: "cleanupLogic offsets->shift", Func: "(*Buffer).cleanupLogic", From: "call:(*Buffer).consumerOffsets", To: "write:Buffer.offset", Lock: "Buffer.mutex", Why: "the shift is applied to the state the cleaner saw"},
+			{ID: "cleanupLogic reslice->base", Func: "(*Buffer).cleanupLogic", From: "write:Buffer.buffer", To: "write:Buffer.offset", Lock: "Buffer.mutex", Why: "buffer and base offset move together"},
+			{ID: "get lookup->index", Func: "(*Buffer).get", From: "read:Buffer.consumers[]", To: "read:Buffer.buffer[]", Lock: "Buffer.mutex", Why: "offset, base and element are read in one hold"},
+			// Channel (C13)
+			{ID: "Channel.rollback read-modify-write", From: "read:Channel.rollback", To: "write:Channel.rollback", Lock: "Channel.mutex", Why: "replay counter updated in the hold in which it was read"},
+			{ID: "Channel.Get closed-check->take", Func: "(*Channel).Get$1", From: "read:Channel.ctx", To: "write:Channel.buffer", Lock: "Channel.mutex", Why: "nothing is taken from the source once closed"},
+			{ID: "Channel.Get closed-check->replay", Func: "(*Channel).Get$1", From: "read:Channel.ctx", To: "write:Channel.rollback", Lock: "Channel.mutex", Why: "state is not modified once closed"},
+			{ID: "Channel.Commit closed-check->drop", Func: "(*Channel).Commit", From: "read:Channel.ctx", To: "write:Channel.buffer", Lock: "Channel.mutex", Why: "Commit fails after close without changing state"},
+			{ID: "Channel.Commit pending->drop", Func: "(*Channel).Commit", From: "read:Channel.rollback", To: "write:Channel.buffer", Lock: "Channel.mutex", Why: "exactly the delivered entries are dropped"},
+			// Workers (C14)
+			{ID: "Workers.count read-modify-write", From: "read:Workers.count", To: "write:Workers.count", Lock: "Workers.mutex", Why: "worker accounting is atomic"},
+			{ID: "Workers enqueue->spawn", Func: "(*Workers).Call", From: "write:Workers.queue", To: "go:(*Workers).worker", Lock: "Workers.mutex", Why: "top-up decided in the hold of the enqueue"},
+			{ID: "Workers target->spawn", Func: "(*Workers).Call", From: "write:Workers.target", To: "go:(*Workers).worker", Lock: "Workers.mutex", Why: "top-up uses the target set by this call"},
+			{ID: "worker head->dequeue", Func: "(*Workers).worker", From: "read:Workers.queue[]", To: "write:Workers.queue", Lock: "Workers.mutex", Why: "the item taken is the one removed"},
+			// Worker (C17)
+			{ID: "Worker idle-check->start do", Func: "(*Worker).Do", From: "read:Worker.stop", To: "go:(*Worker).do", Lock: "Worker.mu", Why: "an instance starts only when none exists"},
+			{ID: "Worker idle-check->start wait", Func: "(*Worker).Do", From: "read:Worker.done", To: "go:(*Worker).wait", Lock: "Worker.mu", Why: "one watcher per instance"},
+			{ID: "Worker take wg", Func: "(*Worker).wait", From: "read:Worker.wg", To: "write:Worker.wg", Lock: "Worker.mu", Why: "the wait group is taken and cleared atomically"},
+			{ID: "Worker stop-decision->reset", Func: "(*Worker).wait", From: "read:Worker.wg", To: "write:Worker.stop", Lock: "Worker.mu", Why: "Do blocks from the decision to stop until the instance has exited"},
+			// Exclusive (C10)
+			{ID: "Exclusive validate->count", Func: "(*Exclusive).call", From: "read:Exclusive.work[]", To: "write:exclusiveItem.count", Lock: "Exclusive.mutex", Why: "a call attaches only to the item currently in the map"},
+			{ID: "Exclusive validate->work", Func: "(*Exclusive).call", From: "read:Exclusive.work[]", To: "write:exclusiveItem.work", Lock: "Exclusive.mutex", Why: "same"},
+			{ID: "Exclusive validate->wait", Func: "(*Exclusive).call", From: "read:Exclusive.work[]", To: "write:exclusiveItem.wait", Lock: "Exclusive.mutex", Why: "same"},
+			{ID: "Exclusive successor count->delete", Func: "(*Exclusive).call$1", From: "read:exclusiveItem.count", To: "delete:Exclusive.work", Lock: "exclusiveItem.mutex", Why: "the key is deleted in the hold in which the successor was seen unused"},
+			// ChanPubSub (C06)
+			{ID: "Send count->arm", Func: "(*ChanPubSub).Send", From: "call:(*sync/atomic.Int32).Load", To: "call:(*ChanCaster).Add", Lock: "ChanPubSub.sendingMu", Why: "no subscription between counting and arming"},
+			{ID: "Send arm->deliver", Func: "(*ChanPubSub).Send", From: "call:(*ChanCaster).Add", To: "call:(*ChanCaster).Send", Lock: "ChanPubSub.sendingMu", Why: "no subscription between arming and delivery"},
+			{ID: "Send deliver->pong under sendMu", Func: "(*ChanPubSub).Send", From: "call:(*ChanCaster).Send", To: "write:ChanPubSub.pongN", Lock: "ChanPubSub.sendMu", Why: "Sends are serialised through the acknowledgement phase"},
+			{ID: "ChanCaster.Send arm->reset", Func: "(*ChanCaster).Send", From: "call:(*sync/atomic.Uint64).Load", To: "call:(*sync/atomic.Uint64).CompareAndSwap", Lock: "ChanCaster.mutex", Why: "Send holds the write lock from the first load to the reset"},
+		},
+		Requires: []an.Require{
+			{ID: "Exclusive map update under item mutex", Func: "(*Exclusive).call$1", Event: "write:Exclusive.work[]", Lock: "exclusiveItem.mutex", Write: true, Why: "successor installed / key deleted while the key's item mutex is held"},
+			{ID: "Channel.Close cancels inside the hold", Func: "(*Channel).Close$1", Event: "call:field:Channel.cancel", Lock: "Channel.mutex", Write: true, Why: "a Get that holds the mutex sees the cancelled context before taking from the source"},
+			{ID: "ChanPubSub.Send delivers under sendingMu", Func: "(*ChanPubSub).Send", Event: "call:(*ChanCaster).Send", Lock: "ChanPubSub.sendingMu", Write: true, Why: "no subscription during delivery"},
+			{ID: "ChanPubSub.Send delivers under sendMu", Func: "(*ChanPubSub).Send", Event: "call:(*ChanCaster).Send", Lock: "ChanPubSub.sendMu", Write: true, Why: "sends are serialised"},
+			{ID: "ChanPubSub positive Add under sendingMu", Func: "(*ChanPubSub).Add", Event: "call:(*ChanPubSub).addSubscribers", Lock: "ChanPubSub.sendingMu", Param: "delta", SignMask: 4, Why: "subscribing is excluded while a Send counts and delivers"},
+			{ID: "ChanCaster positive Add under read lock", Func: "(*ChanCaster).Add", Event: "call:(*sync/atomic.Uint64).Add", Lock: "ChanCaster.mutex", Param: "delta", SignMask: 4, Why: "a registration cannot overlap a Send"},
+			{ID: "ChanCaster.Send sends under write lock", Func: "(*ChanCaster).Send", Event: "call:(*sync/atomic.Uint64).CompareAndSwap", Lock: "ChanCaster.mutex", Write: true, Why: "arming and reset happen under the write lock"},
+		},
 	}
 }
